@@ -27,7 +27,7 @@ OrderSet(root, part) == IF part = "base" THEN OrderTrees(root) \cup RevTrees(roo
                         ELSE IF part = "rev" THEN RevInterleaved(root) ELSE OrderInterleaved(root, Thorough)
 \* (the worker that expands a state also checks its successors: 8 chunks per set keep all workers busy)
 PickOrder == st[1] = "O" /\ \E t \in {x \in OrderSet(st[2], st[3]) : Len(x.subs) % 4 = st[4]} : st' = <<"order", st[2], t, 0>>
-PickWs == st[1] = "W" /\ \E a \in WsCands(st[2]) : st' = <<"arg", st[2], st[3], a>>
+PickWs == st[1] = "W" /\ \E a \in WsCands(st[2]) \cup GramCands(st[2], Thorough) : st' = <<"arg", st[2], st[3], a>>
 MCNext == PickFam \/ PickCard \/ PickArg \/ PickOrder \/ PickWs
 
 TablesOK == TableWellFormed /\ EveryKeywordPlaced
